@@ -4,6 +4,6 @@ CONSTANTS
   MaxDepth = 2
   Dedup = FALSE
   NameFn <- GoodName
-INVARIANTS Once Complete Injective NoDivergeIfFinite
+INVARIANTS Once Complete Injective
 
 CHECK_DEADLOCK FALSE
